@@ -38,6 +38,8 @@
 (*   Snap{}                    the provider returned the initial list      *)
 (*   Create{n,ep}              the balancer asked the factory for a channel *)
 (*   Chan{n,st} OpenDone{n,ok} Held{r} Late{r,n}  environment / no-ops      *)
+(*   Raised{op} Hang{}         the balancer raised into its caller / spun   *)
+(*           (diagnostic no-ops: the rest of the history is still judged)  *)
 (*   Disp{r,n,err,st,fresh,hasU,U}  request r was handed to node n (n = -1: *)
 (*           it failed at once, err = "nomembers" | "other" | "none");     *)
 (*           U = <<n, st, out>> for every member the balancer is using,    *)
@@ -50,8 +52,9 @@
 (*           optional internal projection: ld = load attributed to the     *)
 (*           node (Idle and Penalty removed); neg = number of              *)
 (*           'Decrementing load below Zero' warnings logged so far         *)
-(*   Q{hasE,elig}              quiescent point; elig = endpoints the       *)
-(*           balancer holds (heap + idle), optional internal projection    *)
+(*   Q{hasE,elig}              quiescent point (nothing can run at this    *)
+(*           instant); elig = endpoints the balancer holds (heap + idle),  *)
+(*           optional internal projection                                  *)
 (*   Probe{got,full}           endpoints that received traffic under a     *)
 (*           saturating probe with every channel open                      *)
 (***************************************************************************)
@@ -161,11 +164,6 @@ EndCheck(a, ev) ==
   \* object the projection reports (members and removed, draining nodes).
   ELSE IF On("C04") /\ ev.hasL = 1 /\ \E i \in DOMAIN ev.L : ev.L[i][2] # a.node[ev.L[i][1]].out
        THEN "C04.conserved"
-  \* C04.closeIdle / C04.closeOnDrain (not later): by the end of the step a removed
-  \* member is closed if it was idle or marked down when it left, or has drained.
-  ELSE IF On("C04") /\ Unclosed(a) # {}
-       THEN IF \E n \in Unclosed(a) : a.node[n].due \/ ~a.node[n].ll
-            THEN "C04.closeIdle" ELSE "C04.closeOnDrain"
   ELSE "ok"
 
 EndUpd(a, ev) ==
@@ -179,9 +177,15 @@ EndUpd(a, ev) ==
 \* ------------------------------------------------------------------ quiescent points
 \* C05.initGate: before the initial list is handed over the balancer holds nothing;
 \* C05.membership: afterwards, at every quiescent point, it holds exactly S.
+\* C04.closeIdle / C04.closeOnDrain (not later): once nothing more can run at this
+\* instant, a removed member is closed if it was idle or marked down when it left, or
+\* has drained ("at once" / "when its last outstanding request completes").
 QCheck(a, ev) ==
   IF On("C05") /\ ev.hasE = 1 /\ ~a.loaded /\ Len(ev.elig) > 0 THEN "C05.initGate"
   ELSE IF On("C05") /\ ev.hasE = 1 /\ a.loaded /\ ToSet(ev.elig) # a.S THEN "C05.membership"
+  ELSE IF On("C04") /\ Unclosed(a) # {}
+       THEN IF \E n \in Unclosed(a) : a.node[n].due \/ ~a.node[n].ll
+            THEN "C04.closeIdle" ELSE "C04.closeOnDrain"
   ELSE "ok"
 
 \* observable cross-check of membership: who gets traffic under saturating load
@@ -191,7 +195,7 @@ ProbeCheck(a, ev) ==
   ELSE "ok"
 
 \* ------------------------------------------------------------------ the machine
-NoOps == {"JoinDone", "Chan", "OpenDone", "Held", "Late"}
+NoOps == {"JoinDone", "Chan", "OpenDone", "Held", "Late", "Raised", "Hang"}
 
 CheckOf(a, ev) ==
   CASE ev.e = "Join" -> "ok"
